@@ -50,43 +50,52 @@ Definition child_kwargs (p : node) : ckw :=
   end.
 
 (* ---- _propagate_implicit_values (composed.py 380-405, after the D16 repair) ---- *)
+(* one child of a propagating container with flags f (idel = what _get_child_kwargs would give):
+   the child's new flags and whether anything changed (then the child propagates further) *)
+Definition pc_flags (f : flags) (idel : option bool) (cf : flags) : flags * bool :=
+  let fix1 := match f_del f with None => negb (ob_eqb (f_idel cf) idel) | Some _ => false end in
+  let cf1 := if fix1 then set_idel cf idel else cf in
+  let fix2 := match f_new f with None => negb (ob_eqb (f_inew cf1) (f_inew f)) | Some _ => false end in
+  let cf2 := if fix2 then set_inew cf1 (f_inew f) else cf1 in
+  let fix3 := match f_safe f with
+              | None => (negb (ob_eqb (f_isafe cf2) (f_isafe f)) && negb (ob_eqb (f_isafe cf2) (Some false)))%bool
+              | Some _ => false end in
+  let cf3 := if fix3 then set_isafe cf2 (f_isafe f) else cf2 in
+  (cf3, (fix1 || fix2 || fix3)%bool).
+
+Definition prop_child (rec : flags -> node -> node) (f : flags) (idel : option bool) (c : node) : node :=
+  let r := pc_flags f idel (nflags c) in
+  if snd r then rec (fst r) c else with_flags c (fst r).
+
+Definition prop_stops (f : flags) : bool :=
+  ((match f_idel f, f_inew f, f_isafe f with None, None, None => true | _, _, _ => false end)
+   || (match f_del f, f_new f, f_safe f with Some _, Some _, Some _ => true | _, _, _ => false end))%bool.
+
 (* prop_as f n = propagate applied to n carrying flags f *)
 Fixpoint prop_as (f : flags) (n : node) : node :=
   match n with
   | Leaf k _ v => Leaf k f v
   | Comp k _ x ch =>
-    if (match f_idel f, f_inew f, f_isafe f with None, None, None => true | _, _, _ => false end) then Comp k f x ch
-    else if (match f_del f, f_new f, f_safe f with Some _, Some _, Some _ => true | _, _, _ => false end) then Comp k f x ch
+    if prop_stops f then Comp k f x ch
     else
       let idel := if Facts.default_delete k then Some true else f_idel f in
       Comp k f x
         ((fix go (l : list (key * node)) : list (key * node) :=
             match l with
             | [] => []
-            | (kk, c) :: r =>
-              let cf := nflags c in
-              let fix1 := match f_del f with None => negb (ob_eqb (f_idel cf) idel) | Some _ => false end in
-              let cf1 := if fix1 then set_idel cf idel else cf in
-              let fix2 := match f_new f with None => negb (ob_eqb (f_inew cf1) (f_inew f)) | Some _ => false end in
-              let cf2 := if fix2 then set_inew cf1 (f_inew f) else cf1 in
-              let fix3 := match f_safe f with
-                          | None => (negb (ob_eqb (f_isafe cf2) (f_isafe f)) && negb (ob_eqb (f_isafe cf2) (Some false)))%bool
-                          | Some _ => false end in
-              let cf3 := if fix3 then set_isafe cf2 (f_isafe f) else cf2 in
-              (kk, if (fix1 || fix2 || fix3)%bool then prop_as cf3 c else with_flags c cf3) :: go r
+            | (kk, c) :: r => (kk, prop_child prop_as f idel c) :: go r
             end) ch)
   end.
 Definition propagate (n : node) : node := prop_as (nflags n) n.
 
 (* ---- ConfigNode(existing_node, **child_kwargs) followed by propagate (node.py 74-85) ---- *)
+Definition adopt_flags (kw : ckw) (cf : flags) : flags :=
+  let cf1 := set_idel cf (ck_idel kw) in
+  let cf2 := set_inew cf1 (ck_inew kw) in
+  if ob_eqb (f_isafe cf2) (Some false) then cf2 else set_isafe cf2 (ck_isafe kw).
+
 Definition adopt (kw : ckw) (c : node) : node :=
-  if ck_any kw then
-    let cf := nflags c in
-    let cf1 := set_idel cf (ck_idel kw) in
-    let cf2 := set_inew cf1 (ck_inew kw) in
-    let cf3 := if ob_eqb (f_isafe cf2) (Some false) then cf2 else set_isafe cf2 (ck_isafe kw) in
-    prop_as cf3 c
-  else c.
+  if ck_any kw then prop_as (adopt_flags kw (nflags c)) c else c.
 
 (* ---- metadata dict merge {**a, **b} ---- *)
 Fixpoint mset (k v : Z) (l : list (Z * Z)) : list (Z * Z) :=
@@ -152,5 +161,5 @@ Definition truthy (n : node) : bool :=
   match n with
   | Leaf (LRequired | LClear | LInclude) _ _ => true
   | Leaf _ _ v => scalar_truthy v
-  | Comp k _ _ ch => if is_funck k then true else match ch with [] => false | _ => true end
+  | Comp k _ x ch => if is_funck k then scalar_truthy x (* bool(_func) *) else match ch with [] => false | _ => true end
   end.
